@@ -530,6 +530,21 @@ OPTIONS:
 	return nil
 }
 
+// checkCaptureLength rejects a packet whose capture length exceeds what is left of its block, its original length, or the snap length of its interface (0 = unlimited).
+// It is called before the packet buffer is allocated.
+func (r *NgReader) checkCaptureLength(snapLength uint32) error {
+	if uint32(r.ci.CaptureLength) > r.currentBlock.length {
+		return fmt.Errorf("capture length %d exceeds remaining block length %d", r.ci.CaptureLength, r.currentBlock.length)
+	}
+	if r.ci.CaptureLength > r.ci.Length {
+		return fmt.Errorf("capture length exceeds original packet length: %d > %d", r.ci.CaptureLength, r.ci.Length)
+	}
+	if snapLength != 0 && uint32(r.ci.CaptureLength) > snapLength {
+		return fmt.Errorf("capture length exceeds snap length: %d > %d", r.ci.CaptureLength, snapLength)
+	}
+	return nil
+}
+
 // readPacketHeader looks for a packet (enhanced, simple, or packet) and parses the header.
 // If an interface descriptor, an interface statistics block, or a section header is encountered, those are handled accordingly.
 // All other block types are skipped. New block types must be added here.
@@ -553,6 +568,9 @@ FIND_PACKET:
 			r.ci.Timestamp = time.Unix(r.convertTime(r.ci.InterfaceIndex, uint64(r.getUint32(r.buf[4:8]))<<32|uint64(r.getUint32(r.buf[8:12])))).UTC()
 			r.ci.CaptureLength = int(r.getUint32(r.buf[12:16]))
 			r.ci.Length = int(r.getUint32(r.buf[16:20]))
+			if err := r.checkCaptureLength(r.ifaces[r.ci.InterfaceIndex].SnapLength); err != nil {
+				return err
+			}
 			break FIND_PACKET
 		case ngBlockTypeSimplePacket:
 			if _, err := r.readBytes(r.buf[:4]); err != nil {
@@ -568,6 +586,9 @@ FIND_PACKET:
 			}
 			if r.ifaces[0].SnapLength != 0 && uint32(r.ci.CaptureLength) > r.ifaces[0].SnapLength {
 				r.ci.CaptureLength = int(r.ifaces[0].SnapLength)
+			}
+			if err := r.checkCaptureLength(0); err != nil {
+				return err
 			}
 			break FIND_PACKET
 		case ngBlockTypeInterfaceDescriptor:
@@ -594,6 +615,9 @@ FIND_PACKET:
 			r.ci.Timestamp = time.Unix(r.convertTime(r.ci.InterfaceIndex, uint64(r.getUint32(r.buf[4:8]))<<32|uint64(r.getUint32(r.buf[8:12])))).UTC()
 			r.ci.CaptureLength = int(r.getUint32(r.buf[12:16]))
 			r.ci.Length = int(r.getUint32(r.buf[16:20]))
+			if err := r.checkCaptureLength(r.ifaces[r.ci.InterfaceIndex].SnapLength); err != nil {
+				return err
+			}
 			break FIND_PACKET
 		case ngBlockTypeNameResolution:
 			if err := r.readNameResolutionBlock(); err != nil {
